@@ -108,6 +108,11 @@ def handle (line : String) : String :=
     match ty with
     | "i" => handleTy tyInt cmd
     | "f" => handleTy tyFloat cmd
+    -- the same generic code at `i32` / `u8` / `f32`: the requests carry values whose results are exact in
+    -- the narrow type, so the integer / binary64 instance of the model answers them
+    | "j" => handleTy tyInt cmd
+    | "b" => handleTy tyInt cmd
+    | "g" => handleTy tyFloat cmd
     | _ => fail
   match run p line with
   | some s => s
